@@ -391,25 +391,34 @@ Error apply_range(BaseEmitter& e, CodeHolder& code, const Program& p, size_t fro
 // Snapshot
 // ---------------------------------------------------------------------------------------------------------------
 
-static void append_expr(std::string& out, const Expression* e, int depth) {
+static void append_expr(std::string& out, const Expression* e, int depth, const std::vector<uint32_t>* remap = nullptr) {
   if (!e || depth > 8) { out += "<null>"; return; }
   char b[64];
   snprintf(b, sizeof b, "(op%u ", unsigned(e->op_type)); out += b;
   for (int i = 0; i < 2; i++) {
     switch (e->value_type[i]) {
       case ExpressionValueType::kConstant: snprintf(b, sizeof b, "c%llu ", (unsigned long long)e->value[i].constant); out += b; break;
-      case ExpressionValueType::kLabel: snprintf(b, sizeof b, "L%u ", e->value[i].label_id); out += b; break;
-      case ExpressionValueType::kExpression: append_expr(out, e->value[i].expression, depth + 1); break;
+      case ExpressionValueType::kLabel: { uint32_t id = e->value[i].label_id; if (remap && id < remap->size()) id = (*remap)[id]; snprintf(b, sizeof b, "L%u ", id); out += b; break; }
+      case ExpressionValueType::kExpression: append_expr(out, e->value[i].expression, depth + 1, remap); break;
       default: out += "- "; break;
     }
   }
   out += ")";
 }
 
-std::string snapshot(const CodeHolder& code) {
+std::string snapshot(const CodeHolder& code, bool ignore_orphan_labels) {
   std::string out;
   char b[256];
-  snprintf(b, sizeof b, "arch=%u sections=%zu labels=%zu relocs=%zu unresolved=%zu base=%llx\n", unsigned(code.arch()), code.section_count(), code.label_count(), code.reloc_entries().size(),
+  // Orphans: anonymous labels that are neither bound nor referenced (e.g. the id a Builder obtained before the allocation
+  // of its label node failed). With `ignore_orphan_labels` they are left out and the remaining labels are renumbered.
+  std::vector<uint32_t> remap;
+  size_t kept = 0;
+  for (const LabelEntry& le : code.label_entries()) {
+    bool orphan = ignore_orphan_labels && !le.is_bound() && le.unresolved_fixups() == nullptr && !le.has_name();
+    remap.push_back(orphan ? 0xffffffffu : uint32_t(kept));
+    if (!orphan) kept++;
+  }
+  snprintf(b, sizeof b, "arch=%u sections=%zu labels=%zu relocs=%zu unresolved=%zu base=%llx\n", unsigned(code.arch()), code.section_count(), kept, code.reloc_entries().size(),
            code.unresolved_fixup_count(), (unsigned long long)code.base_address());
   out += b;
   for (Section* s : code.sections()) {
@@ -425,11 +434,12 @@ std::string snapshot(const CodeHolder& code) {
   out += "\n";
   uint32_t id = 0;
   for (const LabelEntry& le : code.label_entries()) {
-    snprintf(b, sizeof b, "label %u type=%u flags=%x ", id, unsigned(le.label_type()), unsigned(le.label_flags())); out += b;
+    if (remap[id] == 0xffffffffu) { id++; continue; }
+    snprintf(b, sizeof b, "label %u type=%u flags=%x ", remap[id], unsigned(le.label_type()), unsigned(le.label_flags())); out += b;
     if (le.is_bound()) { snprintf(b, sizeof b, "bound sec=%u off=%llu", le.section_id(), (unsigned long long)code.label_offset(id)); out += b; }
     else { size_t n = 0; for (Fixup* f = le.unresolved_fixups(); f && n < 100000; f = f->next) n++; snprintf(b, sizeof b, "unbound fixups=%zu", n); out += b; }
     if (le.has_name()) { out += " name="; out.append(le.name(), le.name_size()); }
-    if (le.has_parent()) { snprintf(b, sizeof b, " parent=%u", le.parent_id()); out += b; }
+    if (le.has_parent()) { snprintf(b, sizeof b, " parent=%u", le.parent_id() < remap.size() ? remap[le.parent_id()] : le.parent_id()); out += b; }
     out += "\n";
     id++;
   }
@@ -438,7 +448,7 @@ std::string snapshot(const CodeHolder& code) {
     snprintf(b, sizeof b, "reloc %u type=%u fmt=(t%u f%u r%u vs%u vo%u bc%u bs%u dl%u) src=%u:%llu dst=%u payload=", re->id(), unsigned(re->reloc_type()), unsigned(f.type()), f.flags(), f.region_size(),
              f.value_size(), f.value_offset(), f.imm_bit_count(), f.imm_bit_shift(), f.imm_discard_lsb(), re->source_section_id(), (unsigned long long)re->source_offset(), re->target_section_id());
     out += b;
-    if (re->reloc_type() == RelocType::kExpression) append_expr(out, re->payload_as_expression(), 0);
+    if (re->reloc_type() == RelocType::kExpression) append_expr(out, re->payload_as_expression(), 0, &remap);
     else { snprintf(b, sizeof b, "%llx", (unsigned long long)re->payload()); out += b; }
     out += "\n";
   }
@@ -485,7 +495,28 @@ bool build_x86_function(x86::Compiler& cc, const FuncParams& fp, RecordingHandle
   x86::Mem stack;
   if (fp.stack) { stack = cc.new_stack(uint32_t(16 + 8 * r.below(8)), 16); if (eh.first != Error::kOk) return false; CK(cc.mov(stack, any())); }
   x86::Vec vec0, vec1;
-  if (fp.vec) { vec0 = cc.new_xmm("x0"); vec1 = cc.new_xmm("x1"); if (eh.first != Error::kOk) return false; CK(cc.pxor(vec0, vec0)); CK(cc.movd(vec1, any().r32())); CK(cc.paddd(vec0, vec1)); }
+  bool avx = fp.vec && fp.avx;
+  if (avx) fn->frame().set_avx_enabled();
+  std::vector<x86::Vec> vec_extra;
+  if (fp.vec) {
+    vec0 = cc.new_xmm("x0"); vec1 = cc.new_xmm("x1"); if (eh.first != Error::kOk) return false;
+    if (avx) { CK(cc.vpxor(vec0, vec0, vec0)); CK(cc.vmovd(vec1, any().r32())); CK(cc.vpaddd(vec0, vec0, vec1)); }
+    else { CK(cc.pxor(vec0, vec0)); CK(cc.movd(vec1, any().r32())); CK(cc.paddd(vec0, vec1)); }
+    for (uint32_t i = 0; i < fp.vec_live; i++) {
+      x86::Vec v = cc.new_xmm("xl%u", i); if (eh.first != Error::kOk) return false;
+      if (avx) { CK(cc.vmovd(v, any().r32())); CK(cc.vpaddd(v, v, vec1)); } else { CK(cc.movd(v, any().r32())); CK(cc.paddd(v, vec1)); }
+      vec_extra.push_back(v);
+    }
+  }
+  auto fold_vectors = [&]() -> bool {
+    // every additional vector value is consumed at the end of the function, so all of them are live across its body
+    if (vec_extra.empty()) return true;
+    for (auto& v : vec_extra) { if (avx) CK(cc.vpaddd(vec0, vec0, v)); else CK(cc.paddd(vec0, v)); }
+    x86::Gp t = cc.new_gp32("vfold"); if (eh.first != Error::kOk) return false;
+    if (avx) CK(cc.vmovd(t, vec0)); else CK(cc.movd(t, vec0));
+    CK(cc.add(vals[0].r32(), t));
+    return true;
+  };
 
   for (uint32_t b = 0; b < fp.blocks; b++) {
     switch (r.below(4)) {
@@ -529,7 +560,7 @@ bool build_x86_function(x86::Compiler& cc, const FuncParams& fp, RecordingHandle
           if (eh.first != Error::kOk) return false;
           CK(cc.add(any(), m));
         }
-        if (fp.vec) { CK(cc.paddd(vec0, vec1)); CK(cc.movd(any().r32(), vec0)); }
+        if (fp.vec) { if (avx) { CK(cc.vpaddd(vec0, vec0, vec1)); CK(cc.vmovd(any().r32(), vec0)); } else { CK(cc.paddd(vec0, vec1)); CK(cc.movd(any().r32(), vec0)); } }
         break;
       }
     }
@@ -543,6 +574,8 @@ bool build_x86_function(x86::Compiler& cc, const FuncParams& fp, RecordingHandle
     if (!inv) return false;
     inv->set_arg(0, any()); inv->set_arg(1, any()); inv->set_arg(2, any()); inv->set_ret(0, ret);
     CK(cc.add(vals[0], ret));
+    // a vector value that lives across the call has to be spilled and reloaded by the allocator
+    if (fp.vec) { x86::Gp t = cc.new_gp32("vt"); if (eh.first != Error::kOk) return false; if (avx) { CK(cc.vpaddd(vec0, vec0, vec1)); CK(cc.vmovd(t, vec0)); } else { CK(cc.paddd(vec0, vec1)); CK(cc.movd(t, vec0)); } CK(cc.add(vals[0].r32(), t)); }
   }
 
   if (fp.jump_table) {
@@ -564,6 +597,7 @@ bool build_x86_function(x86::Compiler& cc, const FuncParams& fp, RecordingHandle
     for (uint32_t i = 0; i < ncases; i++) { CK(cc.bind(cases[i])); CK(cc.add(vals[0], int32_t(i * 7 + 1))); CK(cc.jmp(l_end)); }
     CK(cc.bind(l_end));
     // the table itself lives after the function body
+    if (!fold_vectors()) return false;
     x86::Gp result = vals[0];
     for (size_t i = 1; i < vals.size(); i++) CK(cc.add(result, vals[i]));
     CK(cc.ret(result));
@@ -573,6 +607,7 @@ bool build_x86_function(x86::Compiler& cc, const FuncParams& fp, RecordingHandle
     return true;
   }
 
+  if (!fold_vectors()) return false;
   x86::Gp result = vals[0];
   for (size_t i = 1; i < vals.size(); i++) CK(cc.add(result, vals[i]));
   CK(cc.ret(result));
